@@ -922,7 +922,6 @@ func c16D(c *h.Ctx) {
 var teLocked = []string{"UpdateTablePlayers", "PlayerReserve", "PlayersLeave", "PlayerReady", "PlayerPay", "PlayerBet", "PlayerRaise", "PlayerCall", "PlayerAllin", "PlayerCheck", "PlayerFold", "PlayerPass", "tableGameOpen", "updateCurrentPlayerGameStatistics"}
 var smLocked = []string{"AssignSeats", "RandomAssignSeats", "RemoveSeats", "JoinPlayers", "UpdatePlayerHasChips", "InitPositions", "RotatePositions", "IsPlayerActive", "ListPlayerSeatsFromDealer"}
 
-
 // ---- part F (round 7) -------------------------------------------------------
 // c16F: many callers at the same time, but on different objects: 4..8 tables and bare seat managers of the same size
 // in one process, each with exactly one caller, all busy at once. Every object must behave exactly as if it were alone
